@@ -12,6 +12,7 @@ import Proofs.Seq
 import Proofs.SeqEnc
 import PydapModel.SeqClient
 import Proofs.SeqClient
+import Proofs.ProjSrc
 namespace Pydap.C04
 open Pydap Pydap.IterData Pydap.Seq
 
@@ -399,5 +400,85 @@ example : (answers · [.row [.str ['a'], .num 16], .row [.str ['a'], .num 48]]) 
 end OperatorsExample
 
 end NonVacuity
+
+/-! ### the tie by translation: the *source text* of `SequenceProxy._projection` / `.id` writes the model's text
+
+`Pydap.Gen.src_seq_projection` and `Pydap.Gen.src_seq_id` (PydapModel/Generated/ProjSrc.lean) are the MiniPy trees of the
+whole bodies of handlers/dap.py `SequenceProxy._projection` and `SequenceProxy.id`, regenerated on every run by
+`harness/py2lean.py`.  Opaque inputs, exactly (`proxyEnv`): `self.sub_children`; `list(self.template.children())`
+(only its truth value is read; bound to the children's ids); the comprehension / generator
+`child.id for child in self.template.children()` (bound to `childIds t`); `self.template.id` (`joinDot t.path`);
+`hyperslab(self.slice)` (bound to `hyperslabText p.slice`; its formatting is C03's tie); `isinstance(self.template,
+SequenceType)` (a free boolean); `self.id` (bound to `proxyId t p`, which is what `src_seq_id` computes).  Carried by
+the source: the three branches and their order, the truth tests, `ids[0] = seq + hyperslab + ids[0][len(seq):]`,
+`",".join`, `"." in`, `rpartition(".")`, the concatenations. -/
+
+open MiniPy SeqClient in
+/-- `SequenceProxy.id`: for every proxy the interpreted body returns the model's `proxyId` -/
+theorem C04_source_seq_id (t : Proxy.Tmpl) (p : Proxy.SeqProxy) (isSeq : Bool) :
+    runItem (proxyEnv t p isSeq) Gen.src_seq_id "@ret" = .ok (.str (codesOf (proxyId t p))) := by
+  unfold proxyEnv
+  rw [src_seq_id_eq, ← proxyId_eq]
+
+open MiniPy SeqClient in
+/-- `SequenceProxy._projection`, first and last branch: for every proxy that is not a single column — its template is
+    a `SequenceType`, or its id has no dot, or columns are selected — the interpreted body returns the model's
+    `projText` (the record range on the sequence name of the first column, or after the id) -/
+theorem C04_source_projection (t : Proxy.Tmpl) (p : Proxy.SeqProxy) (isSeq : Bool)
+    (hg : isSeq = true ∨ '.' ∉ proxyId t p ∨ (p.subChildren = true ∧ t.visible ≠ [])) :
+    runItem (proxyEnv t p isSeq) Gen.src_seq_projection "@ret" = .ok (.str (codesOf (projText t p))) := by
+  unfold proxyEnv
+  rw [src_seq_projection_eq, projSpec_model t p isSeq hg]
+
+open MiniPy SeqClient in
+/-- `SequenceProxy._projection`, the single-column branch (after 3339666; `projText` has no such case — the request
+    of this path is C14's `seqReq`): for a proxy whose template is not a `SequenceType`, without selected columns and
+    with a dot in its id, the interpreted body cuts the id at its *last* dot and writes the record range before that
+    dot, `seq[range].name` — on the sequence, where the server reads it -/
+theorem C04_source_projection_column (t : Proxy.Tmpl) (p : Proxy.SeqProxy)
+    (hc : ¬ (p.subChildren = true ∧ t.visible ≠ [])) (hd : '.' ∈ proxyId t p) :
+    ∃ seq name, proxyId t p = seq ++ '.' :: name ∧ '.' ∉ name ∧
+      runItem (proxyEnv t p false) Gen.src_seq_projection "@ret"
+        = .ok (.str (codesOf (seq ++ hyperslabText p.slice ++ '.' :: name))) := by
+  cases hr : rpartDot (proxyId t p) with
+  | none => exact absurd hd ((rpartDot_none _).mp hr)
+  | some ab =>
+    obtain ⟨a, b⟩ := ab
+    obtain ⟨h1, h2⟩ := rpartDot_some _ a b hr
+    refine ⟨a, b, h1, h2, ?_⟩
+    unfold proxyEnv
+    rw [src_seq_projection_eq]
+    unfold projSpec
+    have hne : ¬ (p.subChildren = true ∧ childIds t ≠ []) := fun e => hc ⟨e.1, by simpa [childIds] using e.2⟩
+    rw [if_neg hne, if_pos ⟨rfl, hd⟩, hr]
+
+section SourceExamples
+open MiniPy SeqClient
+
+/-- equality of MiniPy results is decidable (for the concrete examples below only) -/
+local instance decEqMiniPyResult {α : Type} [DecidableEq α] : DecidableEq (Except MiniPy.Err α)
+  | .ok a, .ok b => if h : a = b then isTrue (by rw [h]) else isFalse (by intro h'; cases h'; exact h rfl)
+  | .error a, .error b => if h : a = b then isTrue (by rw [h]) else isFalse (by intro h'; cases h'; exact h rfl)
+  | .ok _, .error _ => isFalse (by intro h; cases h)
+  | .error _, .ok _ => isFalse (by intro h; cases h)
+
+/-- `s` with columns `f`, `i` selected and the range `[1:3]` -/
+def srcT : Proxy.Tmpl := ⟨["s".toList], ["f".toList, "i".toList, "t".toList], ["f".toList, "i".toList]⟩
+def srcP : Proxy.SeqProxy :=
+  { baseurl := [], template := 0, selection := [], slice := [⟨some 1, some 3, none⟩], subChildren := true,
+    session := none, opts := 0 }
+
+example : runItem (proxyEnv srcT srcP true) Gen.src_seq_projection "@ret"
+    = .ok (.str (codesOf "s[1:1:2].f,s.i".toList)) := by decide +kernel
+example : runItem (proxyEnv srcT srcP true) Gen.src_seq_id "@ret" = .ok (.str (codesOf "s.f,s.i".toList)) := by
+  decide +kernel
+-- the single column `s.f` (template a BaseType): the range goes on `s`
+example : runItem (proxyEnv ⟨["s".toList, "f".toList], [], []⟩ { srcP with subChildren := false } false)
+    Gen.src_seq_projection "@ret" = .ok (.str (codesOf "s[1:1:2].f".toList)) := by decide +kernel
+-- the whole sequence
+example : runItem (proxyEnv srcT { srcP with subChildren := false } true) Gen.src_seq_projection "@ret"
+    = .ok (.str (codesOf "s[1:1:2]".toList)) := by decide +kernel
+
+end SourceExamples
 
 end Pydap.C04
